@@ -9,12 +9,12 @@ set_option linter.unusedVariables false
 namespace AsmjitVerif.Lemmas.X86Parse
 open Spec.X86
 
-/-- shape [reg, MEM] with a `[base64 + disp]` operand without segment / broadcast: all conditions of the monitor hold -/
+/-- shape [reg, MEM] with a 64-bit-addressed, non-VSIB memory operand without segment / broadcast: all conditions of the monitor hold -/
 theorem vex_rm_mem_formOk (ctx : Spec.X86.Ctx) (rule : Rule) (p : Parsed) (mb : BitVec 8) (bytes : List (BitVec 8))
     (k0 : RegKind) (f0 f2 : FormOp) (i0 : Nat) (m : MemOp)
     (hm64 : ctx.mode64 = true) (hmode : (rule.modes &&& 2 != 0) = true) (hk0 : PlainKind k0)
     (R : VexRuleM rule 0) (hf0 : f0.role = .reg) (hf2 : f2.role = .rm)
-    (hbk : m.baseKind = .gpq) (hik : m.indexKind = .none) (hseg : m.seg = 0) (hbc : m.bcst = 0)
+    (hwa : wantedAddrSize true m = 64) (hvs : vsibOf m = .none) (hseg : m.seg = 0) (hbc : m.bcst = 0)
     (hal : alignOps rule.oszEff rule.ops [.reg k0 i0, .mem m] =
            some [(f0, some (.reg k0 i0)), (f2, some (.mem m))])
     (hparse : parse true rule bytes = .ok p) (P : VexParsedM rule p mb)
@@ -33,7 +33,7 @@ theorem vex_rm_mem_formOk (ctx : Spec.X86.Ctx) (rule : Rule) (p : Parsed) (mb : 
     regConds_plain _ _ _ _ _ hk0, allOk_nil, memOperandOf, implMemOf, usesVvvv, memDestOf, hcm, Spec.X86.ofExcept,
     hasBcst, hleg, hri, hmodrm, hpfx, hrex, List.foldl, List.find?]
   obtain ⟨hv0, hV⟩ := regNum_zero _ _ hvv
-  simp [hop, hmap, hpp, hreg, hv0, hV, hmod', hmr, hmrm, hs4, hvk0, hpp8, ha67, hbc, hseg, hbk, hik, wantedAddrSize, segPrefix, vsibOf, hm64, allOk]
+  simp [hop, hmap, hpp, hreg, hv0, hV, hmod', hmr, hmrm, hs4, hvk0, hpp8, ha67, hbc, hseg, hwa, hvs, segPrefix, hm64, allOk]
   have hvk0' : ¬ p.vexKind = 0 := by rcases hvk with h | h | h | h <;> omega
   and_intros
   all_goals first
@@ -55,13 +55,13 @@ theorem vex_rm_mem_formOk (ctx : Spec.X86.Ctx) (rule : Rule) (p : Parsed) (mb : 
     | exact Or.inl (Or.inr (Or.inr (Or.inl ‹_›)))
     | rfl
 
-/-- shape [reg, vvvv, MEM, imm8] with a `[base64 + disp]` operand without segment / broadcast: all conditions of the monitor hold -/
+/-- shape [reg, vvvv, MEM, imm8] with a 64-bit-addressed, non-VSIB memory operand without segment / broadcast: all conditions of the monitor hold -/
 theorem vex_rvmi_mem_formOk (ctx : Spec.X86.Ctx) (rule : Rule) (p : Parsed) (mb : BitVec 8) (bytes : List (BitVec 8))
     (k0 k1 : RegKind) (f0 f1 f2 : FormOp) (i0 i1 : Nat) (m : MemOp)
     (hm64 : ctx.mode64 = true) (hmode : (rule.modes &&& 2 != 0) = true) (hk0 : PlainKind k0) (hk1 : PlainKind k1)
     (R : VexRuleM rule 1) (f3 : FormOp) (v : BitVec 64) (hf3 : f3.role = .imm) (hib : immBitsOf f3 = 8)
     (himmp : p.imm = [BitVec.ofNat 8 v.toNat]) (hf0 : f0.role = .reg) (hf1 : f1.role = .vvvv) (hf2 : f2.role = .rm)
-    (hbk : m.baseKind = .gpq) (hik : m.indexKind = .none) (hseg : m.seg = 0) (hbc : m.bcst = 0)
+    (hwa : wantedAddrSize true m = 64) (hvs : vsibOf m = .none) (hseg : m.seg = 0) (hbc : m.bcst = 0)
     (hal : alignOps rule.oszEff rule.ops [.reg k0 i0, .reg k1 i1, .mem m, .imm v] =
            some [(f0, some (.reg k0 i0)), (f1, some (.reg k1 i1)), (f2, some (.mem m)), (f3, some (.imm v))])
     (hparse : parse true rule bytes = .ok p) (P : VexParsedM rule p mb)
@@ -79,7 +79,7 @@ theorem vex_rvmi_mem_formOk (ctx : Spec.X86.Ctx) (rule : Rule) (p : Parsed) (mb 
   simp only [allOk_cons, allOk_append, decorConds, headConds, prefixConds, modrmConds, operandConds, opConds, tailConds, hf3, hib, himmp, immBytesOf, oszEff_zero rule hosz hs, hrev, hf0, hf1, hf2,
     regConds_plain _ _ _ _ _ hk0, regConds_plain _ _ _ _ _ hk1, allOk_nil, memOperandOf, implMemOf, usesVvvv, memDestOf, hcm, Spec.X86.ofExcept,
     hasBcst, hleg, hri, hmodrm, hpfx, hrex, List.foldl, List.find?]
-  simp [hop, hmap, hpp, hreg, hvv, hmod', hmr, hmrm, hs4, hvk0, hpp8, ha67, hbc, hseg, hbk, hik, wantedAddrSize, segPrefix, vsibOf, hm64, allOk]
+  simp [hop, hmap, hpp, hreg, hvv, hmod', hmr, hmrm, hs4, hvk0, hpp8, ha67, hbc, hseg, hwa, hvs, segPrefix, hm64, allOk]
   have hvk0' : ¬ p.vexKind = 0 := by rcases hvk with h | h | h | h <;> omega
   and_intros
   all_goals first
@@ -103,13 +103,13 @@ theorem vex_rvmi_mem_formOk (ctx : Spec.X86.Ctx) (rule : Rule) (p : Parsed) (mb 
     | rfl
     | simp [leBytes, allOk]
 
-/-- shape [reg, MEM, imm8] with a `[base64 + disp]` operand without segment / broadcast: all conditions of the monitor hold -/
+/-- shape [reg, MEM, imm8] with a 64-bit-addressed, non-VSIB memory operand without segment / broadcast: all conditions of the monitor hold -/
 theorem vex_rmi_mem_formOk (ctx : Spec.X86.Ctx) (rule : Rule) (p : Parsed) (mb : BitVec 8) (bytes : List (BitVec 8))
     (k0 : RegKind) (f0 f2 : FormOp) (i0 : Nat) (m : MemOp)
     (hm64 : ctx.mode64 = true) (hmode : (rule.modes &&& 2 != 0) = true) (hk0 : PlainKind k0)
     (R : VexRuleM rule 1) (f3 : FormOp) (v : BitVec 64) (hf3 : f3.role = .imm) (hib : immBitsOf f3 = 8)
     (himmp : p.imm = [BitVec.ofNat 8 v.toNat]) (hf0 : f0.role = .reg) (hf2 : f2.role = .rm)
-    (hbk : m.baseKind = .gpq) (hik : m.indexKind = .none) (hseg : m.seg = 0) (hbc : m.bcst = 0)
+    (hwa : wantedAddrSize true m = 64) (hvs : vsibOf m = .none) (hseg : m.seg = 0) (hbc : m.bcst = 0)
     (hal : alignOps rule.oszEff rule.ops [.reg k0 i0, .mem m, .imm v] =
            some [(f0, some (.reg k0 i0)), (f2, some (.mem m)), (f3, some (.imm v))])
     (hparse : parse true rule bytes = .ok p) (P : VexParsedM rule p mb)
@@ -128,7 +128,7 @@ theorem vex_rmi_mem_formOk (ctx : Spec.X86.Ctx) (rule : Rule) (p : Parsed) (mb :
     regConds_plain _ _ _ _ _ hk0, allOk_nil, memOperandOf, implMemOf, usesVvvv, memDestOf, hcm, Spec.X86.ofExcept,
     hasBcst, hleg, hri, hmodrm, hpfx, hrex, List.foldl, List.find?]
   obtain ⟨hv0, hV⟩ := regNum_zero _ _ hvv
-  simp [hop, hmap, hpp, hreg, hv0, hV, hmod', hmr, hmrm, hs4, hvk0, hpp8, ha67, hbc, hseg, hbk, hik, wantedAddrSize, segPrefix, vsibOf, hm64, allOk]
+  simp [hop, hmap, hpp, hreg, hv0, hV, hmod', hmr, hmrm, hs4, hvk0, hpp8, ha67, hbc, hseg, hwa, hvs, segPrefix, hm64, allOk]
   have hvk0' : ¬ p.vexKind = 0 := by rcases hvk with h | h | h | h <;> omega
   and_intros
   all_goals first
